@@ -70,6 +70,21 @@ func (dr *DocumentRef) Calculate(cur currency.Code, rr cbc.Key) {
 	if dr == nil || dr.Tax == nil {
 		return
 	}
+	// The bases of a referenced document are given, not derived from lines:
+	// bring them to the precision they will be stored with before anything
+	// is computed from them, or the amounts depend on how a base happened to
+	// be written ("100" or "100.00") and change when calculated again.
+	exp := cur.Def().Zero().Exp()
+	for _, ct := range dr.Tax.Categories {
+		if ct == nil {
+			continue
+		}
+		for _, rt := range ct.Rates {
+			if rt != nil {
+				rt.Base = rt.Base.Rescale(exp)
+			}
+		}
+	}
 	dr.Tax.Calculate(cur, rr)
 }
 
